@@ -710,9 +710,26 @@ def _check_proto(run, world, folder, mod, c):
     run.rule("R-FSM-ESC", "enum conversions in _process_byte are inside "
              "try/except ValueError")
     n_enum = 0
+    from .. import astq
+    edefs = astq._defs(fn)
+
+    def converts_to_enum(call):
+        """The callee, with a local alias resolved (`codes = X.Code;
+        codes(b)`), is an enum class of the repository."""
+        f_ = call.func
+        if isinstance(f_, ast.Name) and f_.id in edefs:
+            f_ = edefs[f_.id]
+        if isinstance(f_, ast.Attribute) and f_.attr in (
+                "LubaCmd", "SCIRS232Code", "ErrorType"):
+            return True
+        try:
+            k_ = world.resolve_class(SER, f_)
+        except Exception:
+            k_ = None
+        return k_ is not None and folder.is_enum(k_)
     for n in ast.walk(fn):
-        if isinstance(n, ast.Call) and isinstance(n.func, ast.Attribute) \
-                and n.func.attr in ("LubaCmd", "SCIRS232Code", "ErrorType"):
+        if isinstance(n, ast.Call) and isinstance(
+                n.func, (ast.Attribute, ast.Name)) and converts_to_enum(n):
             n_enum += 1
             p = getattr(n, "_parent", None)
             guarded = False
